@@ -8,6 +8,7 @@ EXPLANATION = (
     "(the Plan variants for which plan_introspection::plan_contains_write returns true), and must recurse (call query_contains_write) in every arm "
     "where the planner recurses into a nested query; its wildcard arm may cover only read-only variants. Row / value / error-category parity between "
     "the two APIs is runtime behaviour and is not decided."
+    " C34.3: every C-API function that rewinds a statement handle's cursor also assigns `executed` on that path (false = re-arm, true = just executed), so a reset or rebound statement is evaluated again on the current graph."
     " C34.2: in the C API's read path every value pushed into an outgoing row is dominated by the Ok arm of Value::reify / Row::reify."
 )
 
@@ -140,3 +141,52 @@ def run(ctx):
         ctx.oblige(ok, "C34.2", "execute_read_rows:push#%d-unreified" % k,
                    "a column value can reach the outgoing row without passing Value::reify: nested graph references (e.g. a node inside a map) are returned as raw "
                    "ids by the C API while the Rust API returns the materialised entity", p.loc())
+
+    stmt_rearm_rule(ctx)
+
+STMT = "nervusdb_capi::StmtHandle"
+
+
+def stmt_rearm_rule(ctx, rid="C34.3"):
+    """a statement handle whose cursor is rewound is re-armed (executed = false) or freshly executed (executed = true) on the same path"""
+    from .. import paths
+    from ..facts import op_const
+    F = ctx.facts
+    ctx.rule(rid, "every C-API function that rewinds a statement's cursor also decides the row cache's validity on that path (re-arm or re-execute), "
+             "so a stepped, reset statement evaluates on the current graph like a Rust prepare + execute does")
+    n = 0
+    for i, b in sorted(F.bodies.items()):
+        if not i.startswith("nervusdb_capi"):
+            continue
+        rew, dec, rearm = set(), set(), set()
+        for bi, blk in enumerate(b.blocks):
+            if b.is_cleanup(bi):
+                continue
+            for st in blk["s"]:
+                if st[0] != "a" or not st[1][1]:
+                    continue
+                last = st[1][1][-1]
+                if not (isinstance(last, list) and last[0] == "f" and last[3] == STMT):
+                    continue
+                k = op_const(st[2][1]) if st[2][0] == "use" else None
+                if last[2] == "cursor" and k is not None and k.get("v") == 0:
+                    rew.add(bi)
+                if last[2] == "executed":
+                    dec.add(bi)
+                    if k is not None and k.get("v") == 0:
+                        rearm.add(bi)
+        if not rew:
+            continue
+        fn = (b.root or b.id).split("::")[-1]
+        fails = paths.fail_blocks(b)
+        for r in sorted(rew):
+            n += 1
+            ctx.instance(rid, "%s: cursor rewound at bb%d; validity decided at %s" % (fn, r, sorted(dec)))
+            if r in dec:
+                continue
+            before = r in (b.reachable([0], avoid=dec) | {0}) and 0 not in dec
+            after = [x for x in b.return_blocks() if x in b.reachable([r], avoid=dec | fails)]
+            ctx.oblige(not (before and after), rid, "%s:%s:rewind-without-rearm" % (rid, fn),
+                       "%s rewinds the statement's cursor on a path that neither clears nor sets `executed`: the next step replays rows cached by an "
+                       "earlier execution instead of evaluating on the current graph" % fn, "%s:%d" % (b.file, b.line_of_block(r)))
+    ctx.floor(rid, "cursor rewinds in the C API", n, 4)
